@@ -147,6 +147,9 @@ def gap_text(cls: str, rng: random.Random, serial: Serial, gi: int, prev: str, n
     if cls == "own_blk":
         return f"\n{ind}/* {c} */\n" + ind
     if cls == "ml_blk":
+        if rng.random() < 0.35:
+            # body lines of different depth, the first one deeper than a later one
+            return f"\n{ind}/* {c}\n{ind}       deeper line\n{ind}   shallower line\n{ind}     middle\n{ind}*/\n" + ind
         return f"\n{ind}/* {c}\n{ind}   second line\n{ind}*/\n" + ind
     if cls == "doc":
         return f"\n{ind}/** {c} */\n" + ind
